@@ -108,6 +108,10 @@ class Graph:
             if t["ok"] and not t["un"]:
                 c = self.compl.get(t["dst"])
                 out.append(("accept", pre + [t["ev"]] + (c or []), t))
+                if c:
+                    # the same history cut short: legal event by event, but the trace ends in a state that
+                    # needed a completion (threads alive or never started, open regions under lint)
+                    out.append(("open-end", pre + [t["ev"]], t))
             elif t["un"]:
                 out.append(("unspec", pre + [t["ev"]], t))
             else:
